@@ -26,7 +26,8 @@ RECURSIVE TriggerFrom(_, _, _)
 TriggerFrom(y, bits, irq) ==
     IF irq > 15 THEN y
     ELSE IF Bit(bits, irq) = 0 THEN TriggerFrom(y, bits, irq + 1)
-    ELSE LET lat1 == [k \in 1 .. 4 |-> IF k <= 3 /\ Bit(y.icu.en[k], irq) = 1 THEN 1 ELSE y.c.lat[k]]
+    ELSE LET L(k) == IF Bit(y.icu.en[k], irq) = 1 THEN 1 ELSE y.c.lat[k]
+             lat1 == <<L(1), L(2), L(3), y.c.lat[4]>>
              vec  == Bit(y.icu.ven, irq) = 1
              c1   == IF vec
                      THEN [y.c EXCEPT !.lat = [lat1 EXCEPT ![4] = 1],
@@ -45,7 +46,7 @@ TimerReg(off) == off - 32 - 16 * TimerOf(off)
 IsTimerOff(off) == off >= 32 /\ off < 64 /\ TimerReg(off) \in {0, 2, 4, 6, 8, 10}
 IsIcuOff(off) == off \in {512, 514, 516, 518, 520, 522, 524} \/ (off >= 530 /\ off < 594 /\ off % 2 = 0)
 CellVal(y, off) == IF off \in DOMAIN y.cells THEN y.cells[off] ELSE 0
-SetCell(y, off, v) == [y EXCEPT !.cells = [x \in (DOMAIN y.cells) \cup {off} |-> IF x = off THEN v ELSE y.cells[x]]]
+SetCell(y, off, v) == [y EXCEPT !.cells = (off :> v) @@ @]
 
 TimerCfgRead(y, i) ==
     LET t == y.tm[i + 1]  raw == CellVal(y, 32 + 16 * i)
@@ -127,13 +128,11 @@ ApplyMmio(y, acc, j) ==
                ELSE ApplyMmio(y, acc, j + 1))
          ELSE ApplyMmio(y, acc, j + 1)
 
-\* memory as the core sees it during the cycle: the known cells plus, at the MMIO pseudo-addresses, what a
-\* read of each register returns now (a lazily evaluated function: only the cells actually read are computed)
-CoreWithMmio(y) ==
-    [y.c EXCEPT !.mem = [ph \in (DOMAIN y.c.mem) \cup MmioRange |->
-                            IF ph >= MmioBase THEN MmioRead(y, ph - MmioBase) ELSE y.c.mem[ph]],
-                !.acc = <<>>]
-StripMmio(c) == [c EXCEPT !.mem = [ph \in (DOMAIN c.mem) \ MmioRange |-> c.mem[ph]]]
+\* the core state for this cycle: MMIO reads return what each register reads now (a lazily evaluated,
+\* never nested function: only the registers actually read are computed); the access list starts empty
+CoreWithMmio(y) == [y.c EXCEPT !.io = [o \in 0 .. 2047 |-> MmioRead(y, o)], !.acc = <<>>]
+EmptyIo == [o \in {} |-> 0]
+StripMmio(c) == [c EXCEPT !.io = EmptyIo]
 
 TickTimers(y) ==
     LET y1 == ApplyTimer(y, 0, TM!TickOp(y.tm[1])) IN ApplyTimer(y1, 1, TM!TickOp(y1.tm[2]))
@@ -154,5 +153,5 @@ SkipAll(y, maxk) ==       \* maxk: wide value
     IN  [k |-> k, y |-> [y EXCEPT !.tm = <<r0.t, r1.t>>]]
 
 SysReset(y) ==       \* Teakra::Impl::Reset: memory zeroed, MIU, APBP, timers, AHBM, DMA, BTDMP, processor registers
-    [y EXCEPT !.c.mem = [ph \in {} |-> 0], !.c.miu = [base |-> 32768, z |-> 0], !.tm = <<TM!ResetState, TM!ResetState>>]
+    [y EXCEPT !.c.mem = [ph \in {} |-> 0], !.c.io = EmptyIo, !.c.miu = [base |-> 32768, z |-> 0], !.tm = <<TM!ResetState, TM!ResetState>>]
 =============================================================================
